@@ -139,6 +139,11 @@ type ClusterTableConf struct {
 
 // BackendConfCheck check BackendConf config
 func BackendConfCheck(conf *BackendConf) error {
+	if conf == nil {
+		// a null entry in the backend list
+		return errors.New("no BackendConf")
+	}
+
 	if conf.Name == nil {
 		return errors.New("no Name")
 	}
